@@ -1,11 +1,11 @@
 INIT Init
 NEXT Next
 CONSTANTS
-  FactorNames <- N_small
+  FactorNames <- N_tiny
   Powers <- P_pm3
   MaxFactors = 2
   Mags <- M_two
-  TargetNames <- N_small
+  TargetNames <- N_tiny
   TargetPowers <- P_pm3
   MaxTFactors = 2
   ScaleKs <- K_two
